@@ -61,6 +61,7 @@ type G struct {
 	retry    bool                // re-execute current instruction when woken
 	wake     *wakeInfo           // set by partner for channel ops
 	vc       []int               // vector clock (HB tracker)
+	panicOrigin string           // innermost repository frame at the time the panic started
 }
 
 type engineError struct{ msg string }
@@ -204,6 +205,9 @@ func (r *Run) goPanic(g *G, v Value, msg string) {
 	pv := v
 	g.panicVal = &pv
 	g.panicMsg = msg
+	if g.panicOrigin == "" {
+		g.panicOrigin = r.repoSite(g)
+	}
 	if len(g.stack) > 0 {
 		g.top().panicking = true
 	}
@@ -267,7 +271,7 @@ func (r *Run) step(g *G) (yield bool) {
 	in := fr.block.Instrs[fr.pc]
 	r.instrs++
 	if r.instrs > r.eng.opts.MaxInstrs {
-		panic(abortRun{"instruction budget exceeded"})
+		engineFail("instruction budget exceeded (%d) in %s", r.eng.opts.MaxInstrs, r.stackOf(g))
 	}
 	return r.exec(g, fr, in)
 }
@@ -433,7 +437,7 @@ func (r *Run) exec(g *G, fr *Frame, in ssa.Instruction) (yield bool) {
 			engineFail("summarised callee starts a goroutine (%s)", fr.fn)
 		}
 		fnv, args := r.prepareCall(g, fr, &x.Call)
-		if g.panicVal != nil {
+		if fr.panicking {
 			return false
 		}
 		ng := r.newG(r.pos(fr, x))
@@ -442,7 +446,7 @@ func (r *Run) exec(g *G, fr *Frame, in ssa.Instruction) (yield bool) {
 		return true
 	case *ssa.Defer:
 		fnv, args := r.prepareCall(g, fr, &x.Call)
-		if g.panicVal != nil {
+		if fr.panicking {
 			return false
 		}
 		fr.defers = append(fr.defers, &deferred{fn: fnv, args: args, call: &x.Call})
@@ -1408,8 +1412,8 @@ func (r *Run) lookupMethod(t types.Type, m *types.Func) *ssa.Function {
 
 func (r *Run) execCall(g *G, fr *Frame, x *ssa.Call) bool {
 	fnv, args := r.prepareCall(g, fr, &x.Call)
-	if g.panicVal != nil {
-		return false
+	if fr.panicking {
+		return false // a panic was raised while evaluating the callee (nil interface receiver)
 	}
 	slot := fr.info.slots[x]
 	// pc is advanced before the callee runs; blocked intrinsics rewind it.
@@ -1511,4 +1515,39 @@ func (r *Run) curPosPrev(g *G) string {
 func (r *Run) callThen(g *G, f *Closure, args []Value, k func(Value)) {
 	nf := r.pushFrame(g, f.fn, args, f.env, -1)
 	nf.onReturn = k
+}
+
+// repoSite names the innermost frame of the repository under test (not stdlib, dependencies,
+// verifrt or harness files) as "function: source line text", stable under line-number shifts.
+func (r *Run) repoSite(g *G) string {
+	for i := len(g.stack) - 1; i >= 0; i-- {
+		fr := g.stack[i]
+		if fr.fn == nil || fr.fn.Pkg == nil {
+			continue
+		}
+		pp := fr.fn.Pkg.Pkg.Path()
+		if !strings.HasPrefix(pp, modulePath) || strings.HasSuffix(pp, "/verifrt") {
+			continue
+		}
+		pc := fr.pc
+		if i < len(g.stack)-1 {
+			pc-- // a caller frame has already advanced past its call
+		}
+		var p token.Pos
+		for j := pc; j >= 0 && j < len(fr.block.Instrs); j-- {
+			if q := fr.block.Instrs[j].Pos(); q.IsValid() {
+				p = q
+				break
+			}
+		}
+		if !p.IsValid() {
+			continue
+		}
+		ps := r.eng.prog.Fset.Position(p)
+		if strings.Contains(ps.Filename, "zz_vh_") {
+			continue
+		}
+		return fr.fn.Name() + ": " + r.eng.sourceLine(ps.Filename, ps.Line)
+	}
+	return ""
 }
